@@ -37,6 +37,21 @@ def structured_pairs(rng, f, n):
         out.append((L * Rinv % m, L2 * Rinv % m))             # the same pattern in the Montgomery representation
     return out
 
+def limb_patterns(rng, f, n):
+    """operands whose 32-bit limbs — in the canonical and in the Montgomery representation — are drawn from
+    {0, 1, 2^32-1, 2^32-2, 2^31, random}: carries and borrows meeting an all-ones / all-zero limb are reached with probability
+    2^-32 by random operands (seed C10n: a borrow chain that loses the borrow entering a limb equal to 2^32-1)."""
+    m = fc.MOD[f]; nb = 8 * fc.N8[f]; Rinv = pow(1 << nb, -1, m); nl = nb // 32; out = []
+    for k in range(n):
+        while True:
+            L = 0
+            for i in range(nl):
+                L |= rng.choice([0, 1, 0xffffffff, 0xfffffffe, 0x80000000, 0xffffffff, rng.bits(32)]) << (32 * i)
+            if L >= m: L &= (1 << (m.bit_length() - 1 - rng.below(3))) - 1
+            if L < m: break
+        out.append(L); out.append(L * Rinv % m)
+    return out
+
 def gen_lines(rng, build, reps, which='C10'):
     ops = harness.list_ops(build); lines = []
     for f in ('fq', 'fr', 'fp'):
@@ -49,6 +64,11 @@ def gen_lines(rng, build, reps, which='C10'):
             if (which == 'C10' and o in ('eq', 'ct_eq', 'sub', 'sub.inherent')) or (which == 'C11' and o in ('cmp', 'partial_cmp')):
                 for a, b2 in structured_pairs(rng, f, 3 * reps):
                     lines.append('%s %x %x' % (op, a, b2))
+            if which == 'C10' and (o.split('.')[0] in ARITH or o in ('inh.add', 'inh.sub', 'inh.mul', 'add.inherent', 'sub.inherent', 'mul.inherent', 'eq', 'ct_eq')):
+                for x in limb_patterns(rng, f, 2 * reps):
+                    lines.append('%s %s %x' % (op, rng.choice(['0', '1', F(), '%x' % x]), x)); lines.append('%s %x %s' % (op, x, F()))
+            elif which == 'C10' and o in UN:
+                for x in limb_patterns(rng, f, 2 * reps): lines.append('%s %x' % (op, x))
             for rep in range(reps if not (which == 'C11' and o == 'ark.from_str') else max(reps, 44)):
                 if which == 'C10':
                     if o.split('.')[0] in ARITH or o in ('inh.add', 'inh.sub', 'inh.mul', 'add.inherent', 'sub.inherent', 'mul.inherent', 'eq', 'ct_eq'):
@@ -97,7 +117,7 @@ def gen_lines(rng, build, reps, which='C10'):
     return lines
 
 VO = ['Props/C10.vo', 'Tie/FieldPower.vo']
-FILES = ['Props/C10.v', 'Proofs/FieldLemmas.v', 'Base/ZpField.v', 'Tie/FieldPower.v']
+FILES = ['Props/C10.v', 'Proofs/FieldLemmas.v', 'Base/ZpField.v', 'Tie/FieldPower.v', 'Proofs/FiatSpecs.v', 'Proofs/FiatPrims.v', 'Proofs/FiatLemmas.v']
 
 def predicate_search(ctx, build, lines, hout, which):
     """property predicate on the implementation: compare every arithmetic result with Python integer arithmetic"""
